@@ -772,6 +772,13 @@ impl Serialize for SV<'_> {
             (Unit, Val::Unit) => s.serialize_unit(),
             (UnitStruct, Val::Unit) => s.serialize_unit_struct(TYPE_NAME),
             (Newtype(sh), v) => s.serialize_newtype_struct(TYPE_NAME, &SV(sh, v)),
+            (Seq(sh), Val::Seq(vs)) if vs.len() % 2 == 0 => {
+                // the path Vec<T>, &[T], BTreeSet<T> take
+                s.collect_seq(vs.iter().map(|v| SV(sh, v)))
+            }
+            (Map(k, v), Val::Map(m)) if m.len() % 2 == 1 => {
+                s.collect_map(m.iter().map(|(kk, vv)| (SV(k, kk), SV(v, vv))))
+            }
             (Seq(sh), Val::Seq(vs)) => {
                 let mut q = s.serialize_seq(Some(vs.len()))?;
                 for v in vs {
@@ -958,6 +965,10 @@ impl<'de> DeserializeSeed<'de> for Seed<'_> {
             F32 => d.deserialize_f32(v),
             F64 => d.deserialize_f64(v),
             Char => d.deserialize_char(v),
+            // an owned target (String, serde_bytes::ByteBuf) asks for the owning variants, a
+            // zero-copy target (&'de str, &'de [u8]) for the borrowing ones
+            Str | DisplayStr if !RECORD.with(|r| r.get()) => d.deserialize_string(v),
+            Bytes if !RECORD.with(|r| r.get()) => d.deserialize_byte_buf(v),
             Str | DisplayStr => d.deserialize_str(v),
             Bytes => d.deserialize_bytes(v),
             Option(_) => d.deserialize_option(v),
@@ -1065,6 +1076,12 @@ impl<'de> Visitor<'de> for V<'_> {
             return Err(E::invalid_type(de::Unexpected::Str(v), &"a borrowed string"));
         }
         Ok(Val::Str(v.to_owned()))
+    }
+    fn visit_string<E>(self, v: String) -> Result<Val, E> {
+        Ok(Val::Str(v))
+    }
+    fn visit_byte_buf<E>(self, v: Vec<u8>) -> Result<Val, E> {
+        Ok(Val::Bytes(v))
     }
     fn visit_borrowed_bytes<E>(self, v: &'de [u8]) -> Result<Val, E> {
         record(v);
